@@ -31,6 +31,8 @@ structure Utxo where
   validHeight : Nat
   /-- stored under the contract-UTXO key `SCU:` (seen by `findUtxo` only) -/
   contract : Bool
+  /-- control program (used by the transaction builder, C27; irrelevant to the keeper) -/
+  prog : Nat
 deriving DecidableEq, Repr, Inhabited
 
 structure Res where
